@@ -46,6 +46,18 @@ CLAIMED = {
   "Runtime monitoring: incremental_sds_plus is driven step by step (its own output fed forward) over exhaustively enumerated small histories (all 32x32 arrival patterns of two streams x 4 rule sets x 3 evaluation grids, complete in the quick tier) and tens of thousands of generated window-consistent histories (renewals just before / at / after expiry, triples in several windows, static graphs, recursion, several derivations with different lifetimes); at every evaluation time the per-component fact sets are compared with the least model over the alive facts (kvcore::mdatalog) and every stored expiry with a threshold sweep over the distinct base expiries (independent of ExpirationProvenance); naive_sds_plus is a second opinion.",
   "Trusted: kvcore::mdatalog, the alive-fact computation and threshold sweep in c12.rs. Positive rules only; histories are generated according to the window-content rule stated in the quantifier rather than produced by the S2R operators.",
   "runtime monitor: recomputation-from-scratch oracle + expiry threshold sweep at every step of generated stream histories", '4/C12'),
+ 'C13': ('exploration',
+  "Runtime monitoring: the five loaders are driven with documents rendered by harness writers (sizes across the 1000-line / 8192-triple chunk boundaries, prefix declarations at the top / repeated / per block, ; and , groups, multi-line statements, CRLF, comments, duplicates) into seven kinds of prior database inside rayon pools of 1, 2, 4 and 16 threads; the lexical snapshot after the load must equal the snapshot before plus exactly the triples the writer recorded, the same triples in different formats must load identically, results must not depend on the pool size, and a second load must be idempotent. Failures are attributed by re-loading 1000-line blocks in isolation and by re-runs that vary size / prior / threads.",
+  "Trusted: the document writers of c13.rs (the oracle is what the writer recorded, no parser involved). Blank nodes, escapes, language tags and datatypes are left to C14.",
+  "runtime monitor: writer-recorded triple sets vs. lexical snapshots across chunk boundaries, priors, formats and thread pools", '4/C13'),
+ 'C16': ('exploration',
+  "Runtime monitoring in crash-isolated worker processes (8 MB stack): totality - nesting ladders up to depth 100000 for 22 recursive constructs, every multi-byte character inserted / every truncation and deletion at every offset of seed requests, word swaps, boundary numbers and 11 mutation kinds, through 20 parser entry points; a dead worker, a panic or accepted-but-unconsumed input is a violation. Faithfulness - generated SELECT / update trees are printed token by token with every term class, ; , lists, random layout, comments and keyword case, and the parsed shared::query tree must equal the tree's structural normal form.",
+  "Trusted: the token printer and normal form of c16.rs. Extension grammars (RULE, REGISTER, MODEL, ...) appear only in the totality workloads.",
+  "runtime monitor: crash-isolated parse workers, exhaustive per-offset mutation, generator/printer round trip against a structural normal form", '4/C16'),
+ 'C17': ('exploration',
+  "Runtime monitoring in crash-isolated worker processes: hostile, generated and mutated request texts are executed through ten string entry points (execute_sparql_query, HTTP GET/POST/form query adapters, execute_sparql_update, execute_update, handle_update, HTTP update adapters, legacy entry) against six database states, with a lexical snapshot of quads and graph catalog before and after every request; query entry points must never change data and must refuse updates, requests the parser rejects must return an error and leave data unchanged, and nothing may panic or kill the process.",
+  "Trusted: kvk::ds::snapshot, the worker protocol. One recorded finding (neural-relation predictions stored through the query endpoint) is listed in known_findings.json.",
+  "runtime monitor: before/after dataset snapshots around hostile requests in crash-isolated workers", '4/C17'),
  'C19': ('exploration',
   "Runtime monitoring: query_with_repairs and repair-aware materialisation are executed on thousands of generated (facts, denial constraints, goal) cases, each repeated in fresh reasoners (per-instance hash seeds change the subset search order), and every returned answer set is compared with an oracle that enumerates all 2^n subsets, keeps the subset-maximal consistent ones and intersects the answers; the materialised store must be consistent and entailed.",
   "Trusted: the backtracking matcher of kvcore::mdatalog, subset enumeration (<= 10 facts).",
